@@ -74,7 +74,7 @@ def run(ctx):
   rule_ladder(ctx)
   rule_template(ctx)
   rule_universal(ctx)
-  rule_excursion_gate(ctx)
+  rule_excursion_gate(ctx, exact=True)     # C12: the p-values NIST assigns exist from exactly 500 cycles on (C13 only needs >= 500)
   rule_bits(ctx)
   rule_range(ctx)
   ctx.expect("R-C12-BITS", 2, "entry count + digit mapping")
@@ -1425,7 +1425,7 @@ def rule_universal(ctx):
 
 
 # ------------------------------------------------------------------ GATE: random-excursion sub-tests need at least 500 cycles
-def rule_excursion_gate(ctx, R="R-C12-MINSIZE"):
+def rule_excursion_gate(ctx, R="R-C12-MINSIZE", exact=False):
   """SP 800-22 2.14.7 / 3.14: the chi-square (and the normal approximation of the variant) are only valid for J >= max(0.005 sqrt(n), 500) cycles;
   below 500 cycles truly random input yields p-values far below any fail level.  Every appended excursion p-value must be dominated by J >= c, c >= 500."""
   repo = ctx.repo
@@ -1468,6 +1468,8 @@ def rule_excursion_gate(ctx, R="R-C12-MINSIZE"):
         lo = max(cs) + (1 if op == "Gt" else 0) if cs else None
       if lo is not None and lo >= 500:
         ok = True
+        if exact and yi is not None and lo > 500:
+          probs.append("an excursion p-value is only reported for J >= %d: SP 800-22 assigns it from J = 500 on" % lo)
     if not ok:
       probs.append("an excursion p-value is reported without the guard J >= 500 (found: %s)" %
                    ("; ".join("%s %r" % (fc[1], as_poly(fc[3])) for fc in e.facts if fc[0] == "cmp" and not isinstance(fc[2], Seq) and as_poly(fc[2]) == J)[:120] or "no comparison of J"))
